@@ -68,6 +68,20 @@ Theorem C03_failed_absorbing : forall P d os, d_failed d = true ->
 Proof. exact failed_absorbing. Qed.
 Print Assumptions C03_failed_absorbing.
 
+(** identical state hashes: the hash is md5 of the canonical encoding [canon] (scalars, kill list in order, every map
+    as a function of its content - encoding/json sorts map keys).  The pre-image determines the state, so replicas whose
+    pre-images agree take identical snapshots and answer identically for ever; conversely equal states have equal
+    pre-images by construction.  (md5 itself is not modelled; what the model cannot exhibit - a Go map iterated in
+    random order leaking into a slice - is what the correspondence compares hashes and answers for, run after run.) *)
+Theorem C03_hash_preimage_determines_state : forall d1 d2, canon d1 = canon d2 <-> d1 = d2.
+Proof. intros d1 d2. split; [exact (canon_inj d1 d2) | by intros ->]. Qed.
+Print Assumptions C03_hash_preimage_determines_state.
+
+Theorem C03_equal_hash_preimage_equal_future : forall P d1 d2 os, canon d1 = canon d2 ->
+  observe P (Live d1) os = observe P (Live d2) os /\ final P (Live d1) os = final P (Live d2) os.
+Proof. exact canon_behaviour. Qed.
+Print Assumptions C03_equal_hash_preimage_equal_future.
+
 (** Non-vacuity: a state with a definition, a KV record, a view, a mailbox; snapshot, recover into a
     replica that already holds other data; continue. *)
 Definition P0 := mkParams 60 5 24.
